@@ -85,6 +85,15 @@ def table():
             sa, sb = gen.gen_shape_pair(r)
             if r.random() < .7:
                 sb = sa
+            if r.random() < .2:
+                # the tolerance is relative to the SECOND operand: pairs whose distance lies between rtol*|a| and rtol*|b|
+                # (seeded change C11-9: operands swapped)
+                pairs = [(1.0, 1.11), (1.11, 1.0), (10.0, 11.05), (11.05, 10.0), (-2.0, -2.21), (0.0, 1e-9), (1e-9, 0.0)]
+                pick = [pairs[int(k)] for k in r.integers(len(pairs), size=4)]
+                a = numpy.array([x for x, _ in pick]); b = numpy.array([y for _, y in pick])
+                how = gen.choice(r, ["positional", "keyword"])
+                f = (lambda M, x, y: getattr(M, nm)(x, y, 0.1, 0.0)) if how == "positional" else (lambda M, x, y: getattr(M, nm)(x, y, rtol=0.1, atol=0.0))
+                return [a, b], f, {"rtol": 0.1, "atol": 0.0, "how": how, "values": "asymmetric"}, []
             if r.random() < .3:
                 # integers that differ but lie within the tolerance (large ones under the defaults, small ones with atol >= 1)
                 big = r.random() < .5
@@ -154,7 +163,19 @@ def table():
     T["diag"] = lambda r: ([arr(r, gen.choice(r, [(3,), (2, 2), (1, 3), (2, 3)]))], lambda M, a: M.diag(a), {}, [])
     T["diagonal"] = lambda r: ([arr(r, gen.choice(r, [(2, 2), (1, 3), (2, 3)]))], lambda M, a: M.diagonal(a), {}, [])
     T["broadcast_arrays"] = lambda r: (lambda s: ([arr(r, s[0]), arr(r, s[1])], lambda M, a, b: M.broadcast_arrays(a, b), {}, []))(gen.gen_shape_pair(r))
-    T["where"] = lambda r: (lambda sh: ([arr(r, sh, "int"), arr(r, sh, "int")], lambda M, a, b: M.where(numpy.arange(int(numpy.prod(sh))).reshape(sh) % 2 == 0, a, b), {}, []))(sh13(r))
+    def where_(r):
+        sh = sh13(r)
+        how = gen.choice(r, ["alternating", "all-true", "all-false", "scalar-operands"])
+        if how == "alternating":
+            cond = numpy.arange(int(numpy.prod(sh))).reshape(sh) % 2 == 0
+            ops = [arr(r, sh, "int"), arr(r, sh, "int")]
+        else:
+            # a uniform condition whose shape is larger than the operands': the condition takes part in the broadcast
+            # (seeded change C11-10: uniform conditions returned one operand as it is)
+            cond = numpy.full((2,) + tuple(sh), how != "all-false")
+            ops = [arr(r, sh, "int"), arr(r, (), "int")] if how != "scalar-operands" else [arr(r, (), "int"), arr(r, (), "float")]
+        return ops, lambda M, a, b: M.where(cond, a, b), {"condition": how}, []
+    T["where"] = where_
     T["choose"] = lambda r: ([arr(r, (3,), "int"), arr(r, (3,), "int")], lambda M, a, b: M.choose(numpy.array([0, 1, 0]), [a, b]), {}, [])
     T["full_like"] = lambda r: ([arr(r, sh13(r), "int")], lambda M, a: M.full_like(a, 7), {}, [])
     T["diff"] = lambda r: ([arr(r, gen.choice(r, [(4,), (2, 3)]))], lambda M, a: M.diff(a), {}, [])
